@@ -28,12 +28,23 @@ def rng_for(seed, *key):
 class Problem:
     """names of the symbolic inputs of one spline problem inside a script"""
 
-    def __init__(self, s, tag, order, dim, N, rng, tp=False, scale=1.0):
+    def __init__(self, s, tag, order, dim, N, rng, tp=False, scale=1.0, coords=None, values=None):
+        """coords: coordinate labels used in the variable names (default 0..dim-1); values: name -> shadow (so that
+        several scripts can share inputs)."""
         self.tag, self.order, self.dim, self.N = tag, order, dim, N
-        self.h = [s.var('%sh%d' % (tag, i), round(rng.uniform(0.6, 1.8) * scale, 3)) for i in range(N)]
-        self.P = [[s.var('%sp%d_%d' % (tag, i, d), round(rng.uniform(-2, 2), 3)) for d in range(dim)] for i in range(N + 1)]
-        self.t0 = s.var('%st0' % tag, round(rng.uniform(-1, 2), 3))
-        self.bc = {f: [s.var('%s%s_%d' % (tag, f, d), round(rng.uniform(-1, 1), 3)) for d in range(dim)] for f in BCF}
+        co = list(coords) if coords is not None else list(range(dim))
+        self.coords = co
+        vals = values if values is not None else {}
+
+        def mk(name, default):
+            if name not in vals:
+                vals[name] = default()
+            return s.var(name, vals[name])
+        self.h = [mk('%sh%d' % (tag, i), lambda: round(rng.uniform(0.6, 1.8) * scale, 3)) for i in range(N)]
+        self.P = [[mk('%sp%d_%d' % (tag, i, d), lambda: round(rng.uniform(-2, 2), 3)) for d in co] for i in range(N + 1)]
+        self.t0 = mk('%st0' % tag, lambda: round(rng.uniform(-1, 2), 3))
+        self.bc = {f: [mk('%s%s_%d' % (tag, f, d), lambda: round(rng.uniform(-1, 1), 3)) for d in co] for f in BCF}
+        self.values = vals
         self.bcname = tag + 'B'
         s.add('bc', self.bcname, 'f', *[x for f in BCF for x in self.bc[f]])
         self.tp = None
